@@ -34,7 +34,7 @@ func typeClass(t reflect.Type) string {
 func TestCheck(t *testing.T) {
 	r := h.Start(t, "C03")
 	defer r.Finish()
-	r.Meta("rule", "the C01 type/value universe (depth<=2 exhaustive, map cells, seeded random types) x {simple, reference} x {Marshal, Encode, Write, Writer}; each stream is parsed by the independent reader hpref (strict well-formedness, full consumption) and its denotation compared with the denotation of the Go value; plus sequences of 2..5 values written to one encoder (must parse as exactly k values, each denoting its value, with back-references across values resolved). distinct_nontrivial = distinct (type, value index, mode) with a non-zero value")
+	r.Meta("rule", "the C01 type/value universe (depth<=2 exhaustive, map cells, seeded random types) x {simple, reference} x {Marshal, Encode, Write, Writer}; each stream is parsed by the independent reader hpref (strict well-formedness, full consumption) and its denotation compared with the denotation of the Go value; plus sequences of 2..5 values written to one encoder (must parse as exactly k values, each denoting its value, with back-references across values resolved). distinct_nontrivial = distinct (type, value index, mode) with a non-zero value Added: what an encoder writes after Reset() parses alone as a well-formed message denoting the values (19x19 value pairs x {simple, reference} x {Encode, Write}).")
 	r.Meta("assumptions", []string{
 		"hpref is the trusted reading of the grammar: calibrated on the 266 expected streams of the repository's encoder tests (all parse) and on hand-written malformed vectors (all rejected)",
 		"times with a year outside 0..9999 are not encodable (known finding of C01) and are skipped here when the encoder reports an error",
@@ -55,6 +55,7 @@ func TestCheck(t *testing.T) {
 	// error values and values only reachable through Encoder methods
 	r.Case("errors-and-specials", func(c *h.Case) { specials(c) })
 	r.Case("pair-matrix", func(c *h.Case) { pairMatrix(c) })
+	r.Case("reset-matrix", func(c *h.Case) { resetMatrix(c) })
 }
 
 func checkValue(c *h.Case, ue corpus.Entry, j int, v reflect.Value) {
@@ -220,6 +221,74 @@ func specials(c *h.Case) {
 // non-referable kind and every assignment of Write/Encode to the three positions, the
 // sequence x, y, y is written to one encoder: the third item must resolve to y, whatever x
 // did to the reference count.
+// resetMatrix: what an encoder writes after Reset() is a message of its own (the RPC codecs
+// write headers, Reset, then the body, and the reader resets likewise): well-formed when parsed
+// alone, class definitions before their instances again, references counted from zero, in both
+// modes and whatever was written before the Reset.
+func resetMatrix(c *h.Case) {
+	one := 5
+	tm := time.Date(2021, 3, 4, 5, 6, 7, 0, time.UTC)
+	pool := []interface{}{
+		"ab", "long string", []byte("b"), 12345, big.NewInt(7), tm, &tm, []string{"ab", "ab"}, map[string]int{"k": 1},
+		&gentypes.One{A: 1}, gentypes.One{A: 2}, &gentypes.Scalars{S: "ab"}, gentypes.Scalars{S: "cd"}, &gentypes.Empty{}, []gentypes.One{{A: 1}, {A: 2}},
+		[]interface{}{&gentypes.One{A: 3}, "ab", "ab"}, struct{ S string }{"ab"}, &struct{ A, B int }{1, 2}, &one,
+	}
+	for xi, x := range pool {
+		for yi, y := range pool {
+			for _, simple := range []bool{true, false} {
+				for w := 0; w < 2; w++ {
+					enc := new(hio.Encoder).Simple(simple)
+					var mark int
+					failed := false
+					put := func(it interface{}) {
+						var err error
+						if w == 1 {
+							err = enc.Write(it)
+						} else {
+							err = enc.Encode(it)
+						}
+						if err != nil {
+							failed = true
+						}
+					}
+					p, _ := h.Try(func() {
+						put(x)
+						put(y)
+						enc.Reset()
+						mark = len(enc.Bytes())
+						put(y)
+						put(x)
+						put(y)
+					})
+					c.R.Eval(1)
+					if p != nil {
+						c.Violation("reset-matrix-panic:"+h.PanicClass(fmt.Sprint(p)), fmt.Sprintf("x=%#v y=%#v: %v", x, y, p), nil)
+						continue
+					}
+					if failed {
+						continue
+					}
+					tail := append([]byte(nil), enc.Bytes()[mark:]...)
+					items := []interface{}{y, x, y}
+					got, _, err := hpref.ParseAll(tail, 3)
+					rep := map[string]interface{}{"x": fmt.Sprintf("%#v", x), "y": fmt.Sprintf("%#v", y), "simple": simple, "write": w == 1, "bytes_after_reset": h.Hex(clipb(tail, 400))}
+					if err != nil {
+						c.Violation(fmt.Sprintf("after-reset-malformed:%T-then-%T", x, y), fmt.Sprintf("x=%#v y=%#v simple=%v: what the encoder wrote after Reset() is not a well-formed message of its own: %v\nbytes=%s", x, y, simple, err, h.Hex(clipb(tail, 400))), rep)
+						continue
+					}
+					for k, it := range items {
+						if why := eqv.DEqual(eqv.Denote(it), got[k]); why != "" {
+							c.Violation(fmt.Sprintf("after-reset-denotation:%T-then-%T", x, y), fmt.Sprintf("item %d after Reset() of x=%#v y=%#v simple=%v denotes another value: %s\nbytes=%s", k, x, y, simple, why, h.Hex(clipb(tail, 400))), rep)
+							break
+						}
+					}
+					c.R.Distinct(fmt.Sprintf("reset|%d|%d|%v|%d", xi, yi, simple, w))
+				}
+			}
+		}
+	}
+}
+
 func pairMatrix(c *h.Case) {
 	one := 5
 	tm := time.Date(2021, 3, 4, 5, 6, 7, 0, time.UTC)
